@@ -31,7 +31,9 @@ func MsgType(msg interface{}) MessageType {
 	if found {
 		return val.(MessageType)
 	}
+	verifPoint("msgtype.miss")
 	mt := deduceMsgType(msg, typ)
+	verifPoint("msgtype.store")
 	unmarshalMap.Store(typ, mt)
 	return mt
 }
